@@ -265,6 +265,28 @@ class ErrAnalysis:
     def payload_call(self, f, place):
         return self.payload_call_origin(f, f.origin_place(place))
 
+    def _named_option_local(self, f, op):
+        """the named Option local whose presence `op.is_some()` asks about (receiver `&local`), else None"""
+        pl = op_place(op)
+        if pl is None:
+            return None
+        l = pl["l"]
+        for _ in range(4):
+            ds = f.full_defs(l)
+            if len(ds) == 1 and ds[0][0] == "stmt" and ds[0][3]["k"] == "assign" and ds[0][3]["rv"]["k"] in ("ref", "use"):
+                rv = ds[0][3]["rv"]
+                p2 = rv["place"] if rv["k"] == "ref" else op_place(rv["op"])
+                if p2 is None or p2["p"]:
+                    return None
+                l = p2["l"]
+                if f.local_name(l):
+                    break
+            else:
+                break
+        if f.local_name(l) and l > f.arg_count and not f.partial_defs(l) and (f.local_ty(l) or "").startswith("std::option::Option<"):
+            return l
+        return None
+
     def prepare(self, f):
         if f.id in self.prep:
             return self.prep[f.id]
@@ -374,6 +396,10 @@ class ErrAnalysis:
                     src_call = self.payload_call_origin(f, o2)
                 if src_call is not None and (src_call.get("resolved") or "") in self.soft_none:
                     sw[b] = ("softnone", ("0" if any(v == "0" for v, _ in t["targets"]) else "else") if d[2]["callee"].endswith("is_some") else ("else" if any(v == "0" for v, _ in t["targets"]) else "1"))
+                else:
+                    ol = self._named_option_local(f, d[2]["args"][0])
+                    if ol is not None:
+                        sw[b] = ("dconsb", ol, d[2]["callee"].endswith("is_some"))
             elif d[0] == "call":
                 c = d[2].get("callee") or ""
                 if c in ("std::result::Result::<T, E>::is_err", "std::result::Result::<T, E>::is_ok") and d[2]["args"]:
@@ -547,6 +573,20 @@ class ErrAnalysis:
                             continue
                         d2 = dict(fl)
                         d2[key] = v
+                        outs.append((tg, (must, may, vals, tuple(sorted(d2.items(), key=str)), par, last, sn)))
+                    return outs
+                if info[0] == "dconsb":
+                    # `opt.is_some()` / `opt.is_none()` on a named Option local: the same knowledge as a match on it
+                    key = ("d", info[1])
+                    cur = dict(fl).get(key)
+                    for v, tg in edges:
+                        truth = (v != "0")
+                        some = truth if info[2] else (not truth)
+                        vv = "1" if some else "0"
+                        if cur is not None and cur != vv:
+                            continue
+                        d2 = dict(fl)
+                        d2[key] = vv
                         outs.append((tg, (must, may, vals, tuple(sorted(d2.items(), key=str)), par, last, sn)))
                     return outs
                 if info[0] == "rstate":
